@@ -69,10 +69,18 @@ def instantiate(ob):
     return out
 
 
+_BV_FREE = set()     # ids of assertions known to contain no bv2int term
+
+
 def bv2int_axioms(asserts):
     """byte_of(bv2int(x)) == x for every bv2int term of the query (byte_of is the left inverse of the
     injective bv2int on 8-bit vectors)"""
-    seen, found, todo = set(), {}, list(asserts)
+    seen, found, todo = set(), {}, []
+    for a in asserts:
+        i = a.get_id()
+        if i not in _BV_FREE:
+            todo.append(a)
+    start = list(todo)
     while todo:
         e = todo.pop()
         if e.get_id() in seen:
@@ -85,12 +93,14 @@ def bv2int_axioms(asserts):
         elif z3.is_quantifier(e):
             todo.append(e.body())
     if not found:
+        for a in start:
+            _BV_FREE.add(a.get_id())
         return []
     bo = z3.Function("byte_of", z3.IntSort(), z3.BitVecSort(8))
     return [bo(e) == e.arg(0) for e in found.values()]
 
 
-def verify_function(src, reg, qual, timeout_ms=10000, select=None):
+def verify_function(src, reg, qual, timeout_ms=10000, select=None, emit_smt2=False):
     """Verify one function against its contract.  Returns dict with per-obligation results.
     select: optional predicate(label) choosing which clauses to generate."""
     t_start = time.time()
@@ -226,37 +236,70 @@ def verify_function(src, reg, qual, timeout_ms=10000, select=None):
         return res
     res["inlined"] = sorted(ex.inlined)
     res["callee_contracts"] = sorted(ex.used_contracts)
-    # ---- discharge, aggregated per named obligation
+    # ---- verification conditions (one SMT query per path and named obligation)
     groups = {}
     for ob in obls:
         groups.setdefault((ob.kind, ob.name), []).append(ob)
-    # clauses that no path reached prove nothing: report them
-    for lbl in c.ensures:
-        if ("post", lbl) not in groups and not (select and not select(lbl)):
-            res["obligations"].append({"name": "%s/post:%s" % (qual, lbl), "kind": "post", "label": lbl,
-                                       "verdict": "unreached", "path_vcs": 0, "time_s": 0})
-    for (kind, name), vcs in groups.items():
-        t0 = time.time()
-        verdict, backend, model, slow = "unsat", set(), None, False
-        for ob in vcs:
+    res["unreached"] = [lbl for lbl in c.ensures if ("post", lbl) not in groups and not (select and not select(lbl))]
+    vcs = []
+    for (kind, name), obs in groups.items():
+        for ob in obs:
             if z3.is_true(ob.goal):
+                vcs.append({"kind": kind, "label": name, "smt2": None})
                 continue
             asserts = list(ob.pc) + instantiate(ob) + [z3.Not(ob.goal)]
             asserts += bv2int_axioms(asserts)
-            r = check(asserts, timeout_ms)
-            backend.add(r["backend"])
-            if r["verdict"] == "sat":
-                verdict, model = "sat", r.get("model")
-                break
-            if r["verdict"] != "unsat":
-                verdict = "unknown"
-        dt = time.time() - t0
-        res["obligations"].append({"name": "%s/%s:%s" % (qual, kind, name), "kind": kind, "label": name,
-                                   "verdict": verdict, "path_vcs": len(vcs), "time_s": round(dt, 4),
-                                   "backend": "+".join(sorted(backend)) or "trivial", "model": model,
-                                   "aux": kind in AUX_KINDS})
+            if emit_smt2:
+                sol = z3.Solver()
+                sol.add(asserts)
+                vcs.append({"kind": kind, "label": name, "smt2": sol.to_smt2()})
+            else:
+                vcs.append({"kind": kind, "label": name, "asserts": asserts})
+    res["gen_time_s"] = round(time.time() - t_start, 3)
+    if emit_smt2:
+        res["vcs"] = vcs
+        return res
+    # in-process discharge (debug runner)
+    for vc in vcs:
+        if "asserts" in vc:
+            r = check(vc["asserts"], timeout_ms)
+            vc["result"] = {k: v for k, v in r.items() if k != "z3model"}
+            del vc["asserts"]
+        else:
+            vc["result"] = {"verdict": "unsat", "backend": "trivial", "time_s": 0.0, "model": None}
+    res["obligations"] = aggregate(qual, vcs, res["unreached"])
     res["time_s"] = round(time.time() - t_start, 3)
     return res
+
+
+def discharge_smt2(args):
+    """worker: solve one serialised VC"""
+    smt2, timeout_ms = args
+    if smt2 is None:
+        return {"verdict": "unsat", "backend": "trivial", "time_s": 0.0, "model": None}
+    from .solve import check_smt2
+    return check_smt2(smt2, timeout_ms)
+
+
+def aggregate(qual, vcs, unreached=()):
+    """per named obligation: discharged iff every path-VC is unsat; refuted iff some path-VC is sat"""
+    out = []
+    for lbl in unreached:
+        out.append({"name": "%s/post:%s" % (qual, lbl), "kind": "post", "label": lbl, "verdict": "unreached",
+                    "path_vcs": 0, "time_s": 0, "backend": "-", "model": None, "aux": False})
+    groups = {}
+    for vc in vcs:
+        groups.setdefault((vc["kind"], vc["label"]), []).append(vc["result"])
+    for (kind, name), rs in groups.items():
+        verdicts = [r["verdict"] for r in rs]
+        verdict = "sat" if "sat" in verdicts else ("unsat" if all(v == "unsat" for v in verdicts) else "unknown")
+        model = next((r.get("model") for r in rs if r["verdict"] == "sat"), None)
+        out.append({"name": "%s/%s:%s" % (qual, kind, name), "kind": kind, "label": name, "verdict": verdict,
+                    "path_vcs": len(rs), "time_s": round(sum(r.get("time_s", 0) for r in rs), 4),
+                    "max_vc_time_s": round(max(r.get("time_s", 0) for r in rs), 4),
+                    "backend": "+".join(sorted({r["backend"] for r in rs if r["backend"] != "trivial"})) or "trivial",
+                    "model": model, "aux": kind in AUX_KINDS})
+    return out
 
 
 def load_registry():
